@@ -9,6 +9,7 @@ pub mod c07_drv;
 pub mod c10;
 pub mod c12;
 pub mod c11;
+pub mod c11_hyp;
 pub mod c14;
 pub mod c15;
 pub mod c13;
@@ -35,7 +36,7 @@ pub fn run(prop: &str, ctx: &mut Ctx) -> bool {
         "C10" => c10::run(ctx),
         "C12" => c12::run(ctx),
         // C11 "every later operation accesses only those windows" includes device-configuration accesses (C13 bounds on PCI)
-        "C11" => { c11::run(ctx); c13::run_device_chosen(ctx); }
+        "C11" => { c11::run(ctx); c11::run_hyp(ctx); c13::run_device_chosen(ctx); }
         "C01" | "C02" | "C03" | "C04" => {
             let n = ctx.budget(72, 12); qrig::standard_histories(ctx, &prop.to_lowercase(), n);
             if prop == "C03" && ctx.tier_thorough {
@@ -53,7 +54,7 @@ pub fn run(prop: &str, ctx: &mut Ctx) -> bool {
         }
         "C14" => c14::run(ctx),
         "C15" => c15::run(ctx),
-        "C13" => c13::run(ctx),
+        "C13" => { c13::run(ctx); c11_hyp::run_config(ctx); }
         "C16" => c16::run(ctx),
         "C18" => c18::run(ctx),
         "C17" => { c17::run(ctx); c18::run_multi(ctx); }
